@@ -9,5 +9,5 @@ for d in seeded/${pre}*/; do
   rm -rf replays/$id
   res=$(tools/try_mutant.sh /verif/$d/patch.diff $tier $id 2>&1 | grep -E "^$id rc=" | head -n 1 | cut -c1-120)
   echo "$n -> $res"
-  if [ "$save" = "--save" ] && [ -d replays/$id ]; then mkdir -p regress/$id; k=0; for f in replays/$id/*; do if [ -f "$f" ] && [ $k -lt 2 ]; then case "$(basename $f)" in *__*) ;; *.case|crash-*|leak-*) cp "$f" "regress/$id/${n}__$(basename $f)"; k=$((k+1));; esac; fi; done; fi
+  if [ "$save" = "--save" ] && [ -d replays/$id ]; then mkdir -p regress/$id; k=0; for f in replays/$id/*; do if [ -f "$f" ] && [ $k -lt 2 ]; then case "$(basename $f)" in *@*) ;; *.case|crash-*|leak-*) cp "$f" "regress/$id/${n}@$(basename $f)"; k=$((k+1));; esac; fi; done; fi
 done
